@@ -518,7 +518,15 @@ def run_case(case, ctx):
                 try:
                     with warnings.catch_warnings():
                         warnings.simplefilter("ignore")
-                        got = [(qc.plain(k), [j.id for j in g]) for k, g in project.find_jobs(flt).groupby(real_key, default)]
+                        raw = [(k, [j.id for j in g]) for k, g in project.find_jobs(flt).groupby(real_key, default)]
+                        got = [(qc.plain(k), m) for k, m in raw]
+                        if isinstance(real_key, str):
+                            # one key: the label is the members' own value, a JSON value - a list stays a list
+                            # (a tuple is the label form of SEVERAL keys and is != the list)
+                            for k, m in raw:
+                                if isinstance(k, tuple):
+                                    fails.append("groupby(%r): the group of %s is labelled with the tuple %r; the members' "
+                                                 "own value is the list %r" % (key, m, k, list(k)))
                     gline = "ok " + ";".join(qc.canon_label(k) + "=" + ",".join(sorted(m, key=pos.get)) for k, m in got)
                 except Exception as e:  # noqa
                     got, gline = None, "err " + exc_name(e)
